@@ -461,4 +461,54 @@ func TestC14(t *testing.T) {
 		}
 		run.Eval(fmt.Sprintf("first|%d|%v", ng, preset))
 	}
+	c14SameObject(run, r)
+}
+
+// c14SameObject: one formatter node formats event after event; consecutive events may carry the same type, the
+// same creation time and the very same payload object (a map or slice the caller reuses, a payload another node
+// changed in place). Every line is the image of the payload as it is when the event is formatted.
+func c14SameObject(run *rt.Run, r *rt.Rand) {
+	ctx := context.Background()
+	n := run.N(120, 6000)
+	for i := 0; i < n && !run.Stop(); i++ {
+		created := time.Unix(int64(r.Intn(2_000_000_000)), 0).UTC()
+		typ := genType(r)
+		var nodes []eventlogger.Node
+		if r.Bool() {
+			nodes = []eventlogger.Node{&eventlogger.JSONFormatter{}}
+		} else {
+			nodes = []eventlogger.Node{&eventlogger.JSONFormatterFilter{}}
+		}
+		m := map[string]interface{}{"user": "alice", "token": "s3cret", "n": float64(0)}
+		ctr := []interface{}{float64(0), float64(0), float64(0)}
+		var payload interface{} = m
+		kind := "map"
+		if r.Intn(3) == 0 {
+			payload, kind = ctr, "slice"
+		}
+		for step := 0; step < r.Range(2, 5); step++ {
+			// the object changes in place between two events
+			m["n"], ctr[step%3] = float64(step), float64(step+1)
+			if step == 1 {
+				m["token"] = "[redacted]"
+			}
+			ev := &eventlogger.Event{Type: eventlogger.EventType(typ), CreatedAt: created, Payload: payload}
+			out, err := nodes[0].Process(ctx, ev)
+			if err != nil || out == nil {
+				run.Violation("history-pattern:same-object-refused", fmt.Sprintf("step %d: Process returned %v, %v for an encodable payload", step, out != nil, err), map[string]any{"payload_kind": kind})
+				break
+			}
+			line, ok := out.Format("json")
+			image, ierr := jsonImage(payload)
+			if !ok || ierr != nil {
+				run.Violation("history-pattern:json-line", "no json value stored", map[string]any{"payload_kind": kind, "step": step})
+				break
+			}
+			if why := checkJSONLine(line, typ, created, image); why != "" {
+				run.Violation("history-pattern:json-line", fmt.Sprintf("event %d formatted by the same node with the same type, creation time and payload object (changed in place since the previous event): %s", step+1, why), map[string]any{"payload_kind": kind, "line": string(line)})
+				break
+			}
+		}
+		run.Eval(fmt.Sprintf("same-object|%s|%T", kind, nodes[0]))
+	}
 }
